@@ -1100,6 +1100,40 @@ def _t_tri(g):
         g.add_flow(s, 'R')
 
 
+def _t_gather2(g):
+    """many successors T(k) with EXACTLY TWO inputs tracked by a counter, whose two predecessors are startup
+    tasks and therefore complete concurrently on different threads (races in parsec_update_deps_with_counter:
+    first-arrival CAS against concurrent decrement).  Variants: control gather `CTL X <- X P(k, 0 .. 1)`;
+    two data inputs from two producer classes with [count_deps = on]; one data + one control."""
+    r = g.r
+    n = getattr(g, "gather_n", None) or r.range(250, 500)
+    variant = getattr(g, "gather_variant", None) or r.pick(["ctl", "ctl", "data2", "mixed"])
+    if variant == "ctl":
+        p = g.new_class([(n, False), (2, False)])
+        t = g.new_class([(n, False)])
+        px = g.add_flow(p, 'C')
+        tx = g.add_flow(t, 'C')
+        g.connect((p, px), (t, tx), [same(0)], [same(0), allof(lambda u: C(2))])
+        g.p.classes[t].count = False          # the range in the input selects the counter by itself
+    else:
+        pa = g.new_class([(n, False)])
+        pb = g.new_class([(n, False)])
+        t = g.new_class([(n, False)])
+        a = g.add_flow(pa, 'B')
+        ta = g.add_flow(t, 'R')
+        g.connect((pa, a), (t, ta), [same(0)], [same(0)])
+        if variant == "data2":
+            b = g.add_flow(pb, 'B')
+            tb = g.add_flow(t, 'R')
+        else:
+            b = g.add_flow(pb, 'C')
+            tb = g.add_flow(t, 'C')
+        g.connect((pb, b), (t, tb), [same(0)], [same(0)])
+        g.p.classes[t].count = True           # [count_deps = on]
+    for c in g.p.classes:
+        c.prio = None
+
+
 def _t_mixed(g):
     """two templates side by side in one taskpool (independent sub-graphs)"""
     r = g.r
